@@ -23,6 +23,7 @@ import (
 	"github.com/cloudwego/hertz/verifrt"
 
 	"verifh/mc"
+	"verifh/sched/c09s"
 	"verifh/sched/c10"
 	"verifh/sched/c18"
 )
@@ -261,6 +262,60 @@ func c18Replay(raw json.RawMessage) ([]string, []string) {
 	return viol, append(verifrt.Describe(r), r.Log...)
 }
 
+// ---- C09 schedule part ---------------------------------------------------------------------------------
+
+func c09sJobs(thorough bool) []json.RawMessage {
+	var out []json.RawMessage
+	for _, sc := range c09s.Scenarios(thorough) {
+		bound := 2
+		if len(sc.Conns) >= 3 && !thorough {
+			bound = 1
+		}
+		b, _ := json.Marshal(c09s.Job{Sc: sc, Bound: bound})
+		out = append(out, b)
+	}
+	return out
+}
+
+func c09sExplore(raw json.RawMessage, deadline time.Time) jobResult {
+	var job c09s.Job
+	json.Unmarshal(raw, &job) //nolint:errcheck
+	res := jobResult{Job: raw}
+	seen := map[string]bool{}
+	var cur *c09s.World
+	st := verifrt.Explore(job.Bound, c09s.Opts, func() (func(), func()) {
+		cur = c09s.NewWorld(job)
+		return cur.Body(), cur.OnPoint
+	}, func(r *verifrt.Result, dev int) bool {
+		viol := cur.Violations(r)
+		if r.Diverged != "" {
+			res.Harness = "nondeterministic replay: " + r.Diverged
+			return false
+		}
+		if r.Hung {
+			res.Harness = "execution hung outside the scheduler: " + strings.Join(r.Log, "\n")
+			return false
+		}
+		for _, v := range viol {
+			k := "schedule|" + strings.SplitN(job.Sc.Name, "|", 2)[0] + "|" + slug(v)
+			if !seen[k] && len(res.Violations) < 6 {
+				seen[k] = true
+				res.Violations = append(res.Violations, violation{Key: k, Msg: v, Schedule: r.Choices()})
+			}
+		}
+		return true
+	}, func() bool { return time.Now().After(deadline) })
+	res.Executions, res.Points, res.Preemptive, res.Horizons, res.MaxDepth, res.Completed, res.ByDev = st.Executions, st.Points, st.Preemptive, st.Horizons, st.MaxDepth, st.Completed, st.ByDeviations
+	return res
+}
+
+func c09sReplay(raw json.RawMessage) ([]string, []string) {
+	var job c09s.Job
+	json.Unmarshal(raw, &job) //nolint:errcheck
+	r, viol := c09s.RunOne(job, job.Schedule, true)
+	return viol, append(verifrt.Describe(r), r.Log...)
+}
+
 var families = map[string]*family{}
 
 func init() {
@@ -270,6 +325,13 @@ func init() {
 			Assumptions: []string{"scheduling points are the synchronisation, channel, timer and connection I/O operations of client.go (rewritten mechanically by vinstr); unsynchronised data accesses between them are not interleaved", "time is virtual: timeliness is judged on the logical clock with zero slack", "finalizer-driven connection release (ResponseBodyStream) is not explored"},
 		},
 		jobs: c10Jobs, explore: c10Explore, replay: c10Replay,
+	}
+	families["C09S"] = &family{
+		check: &mc.Check{ID: "C09", ReplayID: "C09S", MergeInto: "schedule_part", Level: "model_checking",
+			Rule:        "schedule part: 2-3 connections (dirty request applying one mutator of the reduced alphabet, with keep-alive or close, and probe requests) served concurrently by one engine; every schedule with <= bound preemptions at connection reads/writes and inside handlers",
+			Assumptions: []string{"sync.Pool itself is not instrumented: contexts migrate between connection threads because the threads interleave at I/O points"},
+		},
+		jobs: c09sJobs, explore: c09sExplore, replay: c09sReplay,
 	}
 	families["C18"] = &family{
 		check: &mc.Check{ID: "C18", Level: "model_checking",
@@ -302,7 +364,7 @@ func worker(f *family) {
 	}
 }
 
-func parent(f *family, tier string) int {
+func parent(f *family, famKey, tier string) int {
 	ch := f.check
 	ch.Run = func(c *mc.Ctx) {
 		jobs := f.jobs(c.Thorough())
@@ -323,7 +385,7 @@ func parent(f *family, tier string) int {
 			wg.Add(1)
 			go func() {
 				defer wg.Done()
-				cmd := exec.Command(os.Args[0], "worker", ch.ID)
+				cmd := exec.Command(os.Args[0], "worker", famKey)
 				cmd.Env = append(os.Environ(), "GOMAXPROCS=2")
 				stdin, _ := cmd.StdinPipe()
 				stdout, _ := cmd.StdoutPipe()
@@ -443,7 +505,7 @@ func main() {
 		if tier != "thorough" {
 			tier = "quick"
 		}
-		os.Exit(parent(f, tier))
+		os.Exit(parent(f, strings.ToUpper(os.Args[2]), tier))
 	case "replay":
 		b, err := os.ReadFile(os.Args[2])
 		if err != nil {
